@@ -96,17 +96,23 @@ class _Runner(_Processor):
     ) -> None:
         async for key, payload, params in consumer:
             actor = actors[key.topic]
-            if self._limiter.locked():
-                await consumer.pause()
-                await self._limiter.acquire()
-                await consumer.unpause()
-            else:
-                await self._limiter.acquire()
+            try:
+                if self._limiter.locked():
+                    await consumer.pause()
+                    await self._limiter.acquire()
+                    await consumer.unpause()
+                else:
+                    await self._limiter.acquire()
+            except asyncio.CancelledError:
+                # told to stop while waiting for a free slot with a message in hand: nobody else
+                # knows about this message any more, give it back untouched
+                await asyncio.shield(self._conn.message_broker.reject(key))
+                raise
             if self._tasks_started >= self.max_tasks:
                 # the allowed number of executions was already started (by this or another queue):
                 # give the message back untouched and stop consuming
                 self._limiter.release()
-                await self._conn.message_broker.reject(key)
+                await asyncio.shield(self._conn.message_broker.reject(key))
                 return
             self._tasks_started += 1
             t = asyncio.create_task(self._process_with_event(actor, key, payload, params))
